@@ -238,6 +238,12 @@ class Explorer:
                 nm = el[2] if len(el) > 2 else None
                 return SYM(self.cap(("field", v[1], i if (nm is None or str(nm).isdigit()) else nm)))
             return SYM(("field", v, i))
+        if el[0] == "ci":
+            if v[0] == "arr" and isinstance(el[1], int) and 0 <= el[1] < len(v[1]):
+                return v[1][el[1]]
+            if v[0] == "sym":
+                return SYM(self.cap(("index", v[1], el[1])))
+            return SYM(("index", v, el[1]))
         if el[0] == "idx":
             if v[0] == "sym":
                 return SYM(self.cap(("index", v[1])))
@@ -298,7 +304,10 @@ class Explorer:
             elif "dc" in el:
                 pe = ("dc", el["dc"])
             elif "idx" in el:
-                pe = ("idx",)
+                iv = self.read_loc(st, fr.root(el["idx"]), ())
+                pe = ("ci", iv[1]) if iv[0] == "c" else ("idx",)
+            elif "ci" in el and not el.get("fe"):
+                pe = ("ci", el["ci"])
             elif "ci" in el:
                 pe = ("idx",)
             else:
@@ -569,25 +578,39 @@ class Explorer:
             r = {"Eq": x == y, "Ne": x != y, "Lt": x < y, "Le": x <= y, "Gt": x > y, "Ge": x >= y}.get(op)
             if r is not None:
                 return C(1 if r else 0, "bool")
-            if op in ("Add", "AddWithOverflow", "AddUnchecked"):
-                r = C(x + y, a[2])
-            elif op in ("Sub", "SubWithOverflow", "SubUnchecked") and x >= y:
-                r = C(x - y, a[2])
-            elif op in ("Mul", "MulWithOverflow"):
-                r = C(x * y, a[2])
-            elif op == "BitAnd":
-                r = C(x & y, a[2])
-            elif op == "BitOr":
-                r = C(x | y, a[2])
-            elif op == "Shl":
-                r = C(x << y, a[2])
-            elif op == "Shr":
-                r = C(x >> y, a[2])
-            else:
-                r = None
-            if r is not None:
+            base = op.replace("WithOverflow", "").replace("Unchecked", "")
+            val = None
+            if base == "Add":
+                val = x + y
+            elif base == "Sub":
+                val = x - y
+            elif base == "Mul":
+                val = x * y
+            elif base == "BitAnd":
+                val = x & y
+            elif base == "BitOr":
+                val = x | y
+            elif base == "BitXor":
+                val = x ^ y
+            elif base == "Shl":
+                val = x << y if 0 <= y < 128 else None
+            elif base == "Shr":
+                val = x >> y if 0 <= y < 128 else None
+            elif base == "Div" and y != 0:
+                val = x // y
+            elif base == "Rem" and y != 0:
+                val = x % y
+            if val is not None:
+                lo, hi = int_range(a[2])
+                ovf = not (lo <= val <= hi)
+                if ovf and hi is not None:
+                    width = hi - lo + 1
+                    val = (val - lo) % width + lo
+                r = C(val, a[2])
                 if op.endswith("WithOverflow"):
-                    return ("tup", (r, C(0, "bool")))
+                    return ("tup", (r, C(1 if ovf else 0, "bool")))
+                if ovf and base in ("Add", "Sub", "Mul"):
+                    return SYM(self.cap(("bin", op, a, b)))   # unchecked op that would overflow: leave symbolic
                 return r
         if op in cmpops:
             return SYM(self.cap(("cmp", op, a, b)))
@@ -706,8 +729,22 @@ class Explorer:
                 self.finish_path(st, None, "diverge")
                 return
             if tk == "assert":
-                # overflow / bounds asserts: success edge only (panic sites are the ledger's job)
-                st.effects.append(("assert", t["msg"]["k"], (fn["path"], t.get("line"))))
+                cv = self.operand(st, fr, t["cond"])
+                site = (fn["path"], t.get("line"))
+                ev = self.eval_bool(st, cv) if cv[0] in ("c", "sym") else None
+                if isinstance(ev, bool):
+                    if ev == t["expected"]:
+                        st.effects.append(("assert", t["msg"]["k"], site, "discharged", None))
+                        fr.bb = t["t"]
+                        continue
+                    st.effects.append(("assert", t["msg"]["k"], site, "fails", None))
+                    self.finish_path(st, None, "panic")
+                    return
+                # undecided: the success edge is followed under the assumption; the obligation is recorded
+                ops = tuple(self.operand(st, fr, t["msg"][k]) for k in ("a", "b", "len", "index") if k in t["msg"])
+                st.effects.append(("assert", t["msg"]["k"], site, "open", (t["msg"].get("op"), cv, ops)))
+                if ev is not None:
+                    self.assume_bool(st, ev, t["expected"])
                 fr.bb = t["t"]
                 continue
             if tk == "switch":
@@ -866,6 +903,13 @@ class Explorer:
             # constant folding through small in-crate functions (conversion tables, try_from on constants)
             self.stats["inlined"].add(path)
             return self.enter(st, stack, fr, callee, args, dest, target, None)
+        if callee is not None and args and args[0][0] == "ref" and len(callee["blocks"]) <= 40 and len(stack) < 10 \
+                and callee.get("impl_self", "").startswith("mqtt::packet::v") and frame.accessor_ok(self.F, path):
+            rv = self.read_loc(st, args[0][1], args[0][2])
+            if rv[0] == "agg" and rv[1] in self.F.adts:
+                # accessor on a packet value built on this path (e.g. by an inlined builder): read its fields directly
+                self.stats["inlined"].add(path)
+                return self.enter(st, stack, fr, callee, args, dest, target, None)
         if callee is not None and self.inline_pred(self, callee, info):
             self.stats["inlined"].add(path)
             return self.enter(st, stack, fr, callee, args, dest, target, None)
@@ -1006,7 +1050,7 @@ class Explorer:
                     self.write_loc(st, tgt[1], tgt[2], ("vec", cur[1] + (args[1],)))
                 else:
                     self.write_loc(st, tgt[1], tgt[2], ("vec", (("evs?", cur), args[1])))
-                st.effects.append(("push", tgt[1], args[1], site))
+                st.effects.append(("push", tgt[1], args[1], site, tgt[2]))
                 return ret(UNIT())
             return None
         if p == "std::io::IoSlice::<'a>::new":
@@ -1266,6 +1310,17 @@ class Explorer:
                 cargs.append(elem)
         st.effects.append(("closure_iter", clo[1], iteration))
         self.enter(st, stack, fr, callee, cargs, None, None, cont, closure=True)
+
+
+def int_range(ty):
+    """Value range of a primitive integer type name (unknown types: unbounded)."""
+    m = re.match(r"^(u|i)(8|16|32|64|128|size)$", ty or "")
+    if not m:
+        return (-(1 << 200), 1 << 200)
+    bits = 64 if m.group(2) == "size" else int(m.group(2))
+    if m.group(1) == "u":
+        return (0, (1 << bits) - 1)
+    return (-(1 << (bits - 1)), (1 << (bits - 1)) - 1)
 
 
 def tracked_elem(ty):
